@@ -273,7 +273,9 @@ def report(ctx: Ctx, pid: str) -> None:
             if mine:
                 names = sorted({n for _, n in mine})
                 key = "trace:" + "+".join(names)
-                if t["none_tasks"] and "~" not in t["none_tasks"] and set(names) <= NONE_VALUED_EXPECTED.get(pid, set()):
+                plain_none = bool(t["none_tasks"]) and all(tok and tok[0] not in "~@^&" for tok in t["none_tasks"].split(",")) \
+                    and not t["none_tasks"].startswith("2nd+")
+                if plain_none and set(names) <= NONE_VALUED_EXPECTED.get(pid, set()):
                     # the probe for a requested output whose value is None fails in exactly the recorded way
                     key = "none_valued_requested_output"
                 ctx.violate(key, f"execution of the real controller on {t['instance']} (seed {b['seed']}, hashseed "
